@@ -99,7 +99,7 @@ impl Cfg {
         let fee_rates: [u128; 8] = [0, 1, 10_000, 99_999, 100_000, 5_000, 33_333, 50_000];
         let mins: [u128; 5] = [1, 100, 1000, 1_000_000, 10];
         let periods: [u64; 5] = [1, 60, 3600, 86_400, 345_600];
-        let unb: [u64; 5] = [1, 100, 86_400, 1_209_600, 1_814_400];
+        let unb: [u64; 6] = [1, 100, 86_400, 1_209_600, 1_814_400, 0];
         // (the token-factory modules allow sub-denoms of up to 44 characters)
         let subs = ["stTIA", "milkTIA", "milkINIT", "abcd", "LiquidStakedTokenWithALongName", "LiquidStakedTokenWithTheLongestNameAllowedxx", "LiquidStakedTokenWithAlmostTheLongestNameYY"];
         Cfg {
